@@ -1,6 +1,8 @@
 --------------------------------- MODULE DriverTrace ---------------------------------
 (* Trace specification of the adaptive driver loop (C05, C13, C14).  A trace is            *)
-(*   [cfg: [strategy, minE, maxE], events: Seq(event)]   with events                       *)
+(*   [cfg: [strategy, minE, maxE, single], events: Seq(event)]   with events               *)
+(*   (single = the run was started with single_step=True: see DriverOps!EffLim; last0 = the *)
+(*   single_step bookkeeping the recorded part starts with, -1 for a fresh call)            *)
 (*   [k |-> "E", eok, np, nonneg, err_true, np_true, res_comb]   one evaluation             *)
 (*   [k |-> "R"]                                                 one refine() call          *)
 (*   [k |-> "Ret", lens, final_comb, reeval_same, reeval_flag_same, pw_same]  return        *)
@@ -9,11 +11,12 @@
 (* The control state (pc, hist, lim) is that of Driver.tla; every recorded event must be    *)
 (* an enabled Driver action, and the numeric clauses measured by the harness must hold.     *)
 EXTENDS DriverOps, TraceLib
-VARIABLES tid, l, pc, hist, lim, fails
-vars == <<tid, l, pc, hist, lim, fails>>
+VARIABLES tid, l, pc, hist, lim, lastCount, fails
+vars == <<tid, l, pc, hist, lim, lastCount, fails>>
 T == Traces[tid]
 Ev(i) == T.events[i]
 LastEv == hist[Len(hist)]
+Lim == EffLim(lim, T.cfg.single, lastCount)
 
 Clauses(e) ==
     CASE e.k = "E" ->
@@ -25,10 +28,10 @@ Clauses(e) ==
              C05_ResultIsCombination |-> e.res_comb ]
       [] e.k = "R" ->
            [ C13_Order          |-> pc = "decide",
-             C13_NoRefineAfterStop |-> hist # <<>> /\ ~MustStop(LastEv, lim) ]
+             C13_NoRefineAfterStop |-> hist # <<>> /\ ~MustStop(LastEv, Lim) ]
       [] e.k = "Ret" ->
            [ C13_Order          |-> pc = "decide",
-             C13_StopsOnlyWhenDue |-> hist # <<>> /\ MustStop(LastEv, lim),
+             C13_StopsOnlyWhenDue |-> hist # <<>> /\ MustStop(LastEv, Lim),
              C13_ArraysAligned  |-> \A i \in 1..Len(e.lens) : e.lens[i] = Len(hist),
              C05_FinalIsCombination |-> e.final_comb,
              C05_ReevaluationSame |-> e.reeval_same,
@@ -46,9 +49,10 @@ Clauses(e) ==
 NextPc(e) == CASE e.k = "E" -> "decide" [] e.k = "R" -> "eval" [] e.k = "Ret" -> "done" [] e.k = "Resume" -> "eval" [] OTHER -> pc
 NextHist(e) == IF e.k = "E" THEN Append(hist, <<e.eok, e.np>>) ELSE hist
 NextLim(e) == IF e.k = "Resume" THEN [minE |-> e.minE, maxE |-> e.maxE] ELSE lim
+NextLast(e) == IF e.k = "R" /\ T.cfg.single /\ hist # <<>> THEN LastEv[2] ELSE lastCount
 
 Init == /\ tid \in 1..NTraces /\ l = 0
-        /\ pc = "eval" /\ hist = <<>>
+        /\ pc = "eval" /\ hist = <<>> /\ lastCount = Traces[tid].cfg.last0
         /\ lim = [minE |-> Traces[tid].cfg.minE, maxE |-> Traces[tid].cfg.maxE]
         /\ fails = {}
         /\ Record(tid, Len(Traces[tid].events), 0, fails)
@@ -56,7 +60,7 @@ Next == /\ l < Len(T.events)
         /\ l' = l + 1 /\ tid' = tid
         /\ LET e == Ev(l + 1) IN
              /\ fails' = fails \cup FailedOf(Clauses(e), l + 1)
-             /\ pc' = NextPc(e) /\ hist' = NextHist(e) /\ lim' = NextLim(e)
+             /\ pc' = NextPc(e) /\ hist' = NextHist(e) /\ lim' = NextLim(e) /\ lastCount' = NextLast(e)
         /\ Record(tid, Len(T.events), l + 1, fails')
 Spec == Init /\ [][Next]_vars
 Post == PrintVerdicts
